@@ -1762,8 +1762,11 @@ func ReadTerm(vm *VM, streamOrAlias, out, options Term, k Cont, env *Env) *Promi
 
 	p := NewParser(vm, s)
 	t, err := p.Term()
-	// Return the look-ahead rune to the stream before the continuation runs.
-	_ = s.UnreadRune()
+	if err != io.EOF {
+		// Return the look-ahead rune to the stream before the continuation runs.
+		// At the end of the stream there is none: end_of_file is delivered and stays consumed.
+		_ = s.UnreadRune()
+	}
 	switch err {
 	case nil:
 		break
